@@ -164,7 +164,10 @@ def hint_section_mutations(rng, p, sig):
     total = counts[-1]
     out = []
     def emit(tag, yy):
-        out.append((tag, bytes(sig[:off]) + bytes(yy)))
+        # keep only sections the FIPS 204 decoder really rejects (e.g. raising the last count is legal
+        # when the last polynomial lists no index yet: it then encodes a hint at position y[total] = 0)
+        if R.hint_bit_unpack(p, bytes(yy)) is None:
+            out.append((tag, bytes(sig[:off]) + bytes(yy)))
     # find a polynomial with at least two hints
     starts = [0] + counts[:-1]
     multi = [i for i in range(k) if counts[i] - starts[i] >= 2]
